@@ -15,7 +15,7 @@ CLAIMS = {
              "orderings of the compared values / canonical expressions: can_fit iff load <= capacity per dimension and asked the right way round, skills (allOf subset, oneOf "
              "intersects, noneOf disjoint, all three required), tour limits (violation iff total + change > limit, kinds not mixed), reachability (rejected iff a new leg is "
              "negative), time windows (admitted iff no arrival after its latest time; abort only on target-independent facts), capacity (each demand part against its own load "
-             "summary; abort only for static delivery). Not decided: arithmetic of the remaining constraints (breaks, recharge, reload thresholds) (feasible(P,S) itself), completeness of goal assembly.",
+             "summary; abort only for static delivery). Marker jobs (reload / recharge) sitting in tours are locked (backward slice of what the route-interval enabler writes into the locked set). Not decided: arithmetic of the remaining constraints (breaks, recharge, reload thresholds) (feasible(P,S) itself), completeness of goal assembly.",
         note="Assumes user relations/initial solutions consistent (documented precondition); CHA call graph; module-level allow tables with reasons.",
         ref="DESIGN.md §5 C01"),
     "C02": dict(
@@ -24,7 +24,7 @@ CLAIMS = {
              "in the same function, a direct callee, or hands them to callers that do; unpaired functions need a reasoned table row; the final report chains "
              "unassigned and required and reports every route; the pragmatic writer writes every route and the unassigned list; functions that move jobs into a "
              "place clean the places the jobs can come from (reasoned move table, no duplication); empty tours are dropped after the last state acceptance; "
-             "the leg search for the next sub-job starts after the previous one; no comparison in matching code relates a value to itself. Not decided: "
+             "the leg search for the next sub-job starts after the previous one; no comparison in matching code relates a value to itself. Shift indices are positions in vehicle.shifts (no dropping adapter before enumerate); relation-bound jobs are excluded from clustering on every alternative (must-derive dataflow). Not decided: "
              "exact-once semantics through value-level bookkeeping (predicates), vehicle/shift existence, identity of breaks/reloads.",
         note="std collection method names classify removal/arrival; table rows are function level with reasons.",
         ref="DESIGN.md §5 C02"),
@@ -52,7 +52,7 @@ CLAIMS = {
              "after all refreshes; per FeatureState impl every per-route slot is refreshed where stale bits are cleared; no hand-over function "
              "returns a possibly stale route; insert-then-accept pairing; a slot written on some paths only is removed on the others (must-write, presence "
              "law by finite evaluation) or its guard is constant per route; the schedule, latest-arrival / waiting, activity-time and load-summary recurrences have "
-             "their defining form (canonical expressions: leg origin/destination/time, carried pair, max_load of carried maximum and current load). Not decided: "
+             "their defining form (canonical expressions: leg origin/destination/time, carried pair, max_load of carried maximum and current load). Every solution context over another set of routes starts from an empty SolutionState; the backward pass bypasses estimate_arrival only on a condition that reads the carried triple. Not decided: "
              "numeric equality of incremental updates with recomputation for the remaining summaries.",
         note="Assumes CHA resolution of workspace traits, closures may-run at construction site, calls through stored dyn Fn fields not followed.",
         ref="DESIGN.md §5 C05"),
@@ -74,7 +74,7 @@ CLAIMS = {
              "the insertion loop polls the quota every round and every path to return passes finalize_insertion_ctx (leftovers -> unassigned); the "
              "long-running loops still poll the quota and quota wrappers keep the wrapped quota; estimates are clamped; initial construction is never cut short by "
              "the quota itself and every built individual joins the population; decomposition merges every part back (no element-dropping adapter); configured "
-             "generation/time limits become members of the termination criterion on every path of the config builder. Not decided: validity of the "
+             "generation/time limits become members of the termination criterion on every path of the config builder. Initial operators build a complete individual on every return path (must-derive from InsertionContext::new). Not decided: validity of the "
              "returned solution itself (C01-C03 value level), wall-clock timing.",
         note="Assumes monotone external Quota implementations; closures analysed at construction site.",
         ref="DESIGN.md §5 C07"),
@@ -97,7 +97,7 @@ CLAIMS = {
         technique="MIR edge-dominance (validate-first), call-graph reachability of rule functions, code/docs table cross-check, dropped-Result def-use scan",
         text="Structural clauses: validate()? dominates every reader call in map_to_problem; every validation rule function (by return type) is reachable "
              "from ValidationContext::validate and module validators aggregate with combine_error_results; the code literal of each check_eNNNN equals its "
-             "name and the set of codes in the code equals the documented headings; no Result in validation is dropped. Not decided: that each predicate "
+             "name and the set of codes in the code equals the documented headings; no Result in validation is dropped. Two confirmed guard rows keep input-derived panics outside validation's reach away (approximation only without index locations; windows only for two dates). Not decided: that each predicate "
              "matches its documentation, exactness of codes == violated rules, input-derived panics in readers for fields no rule covers.",
         note="Docs headings are taken as the rule table; reader panics on unvalidated fields are listed in DESIGN.md as observations, not decided.",
         ref="DESIGN.md §5 C10"),
@@ -123,7 +123,7 @@ CLAIMS = {
         text="Faithfulness clauses: every parsed record field / builder parameter is consumed and filled from a distinct parsed position; demand, capacity "
              "and capacity feature share one load type; essential features contain capacity and transport with time windows enforced for Solomon/Li&Lim; "
              "the rounding flag selects exactly between rounded and raw Euclidean distance; written Dimensions are never dropped; Li&Lim pickups/deliveries are paired by the relation column; the initial-solution reader "
-             "visits every route token and every job (no dropping adapter). Not decided: numeric equality of parsed values, place / window choice on re-reading.",
+             "visits every route token and every job (no dropping adapter). The recharge limit compares accumulator + current leg on every alternative; shared-resource consumption is summed per resource; a missing relation shift index means shift 0 (finite evaluation). Not decided: numeric equality of parsed values, place / window choice on re-reading.",
         note="One genuine defect repaired (Li&Lim dimensions dropped, fix: 9670129).",
         ref="DESIGN.md §5 C13"),
     "C14": dict(
